@@ -379,7 +379,11 @@ func cmdStruct(args []string) {
 		case "update-odd":
 			var q map[string]any
 			hx.Must(json.Unmarshal(s.Prog, &q))
-			if q["x"] == "pointer-source-fault" {
+			if q["x"] == "underlying-fallible-top" {
+				fmt.Fprintf(&src, "\ntype InID%d string\ntype OutID%d int\n\n// goverter:converter\n// goverter:useUnderlyingTypeMethods\n// goverter:extend AtoiU\n%stype C%d interface {\n\tUpdate(source InID%d) (OutID%d, error)\n}\n", i, i, head(i), i, i, i)
+			} else if q["x"] == "ignoremissing-map-value" {
+				fmt.Fprintf(&src, "\ntype MS%d struct{ M map[string]struct{ A int } }\ntype MT%d struct{ M map[string]struct{ B int } }\n\n// goverter:converter\n// goverter:ignoreMissing\n%stype C%d interface {\n\tUpdate(source MS%d) MT%d\n}\n", i, i, head(i), i, i, i)
+			} else if q["x"] == "pointer-source-fault" {
 				fmt.Fprintf(&src, "\n// goverter:converter\n%stype C%d interface {\n\t// goverter:update target\n\tUpdate(source *UWS, target *UWT)\n}\n", head(i), i)
 			} else if q["x"] == "noncomparable-struct" {
 				fmt.Fprintf(&src, "\n// goverter:converter\n// goverter:skipCopySameType\n%stype C%d interface {\n\t// goverter:update target\n\t// goverter:update:ignoreZeroValueField:struct\n\tUpdate(source UOS, target *UOT)\n}\n", head(i), i)
